@@ -21,6 +21,7 @@ def cases(tier):
         feats = ['SERIALIZATION', 'PLANS']
         o = dict(features=feats, callbacks=['life'], act=[], kinds=0)
         fx = fixture('C17', fam, o)
+        if fam in ('f5', 'f10', 'foroot'): L.append(tv_case('C17', fx))
         L.append(fsm_case('C17', fx, 'meta', ['P_C17', 'ENTRY=9', 'FROM_CONSTRUCTION_NOSTEP'], timeout=300, witness=True))
     return L
 
